@@ -19,6 +19,30 @@ from rules.C12 import misuse_rules, _flag_assigns
 from rules.shared_codec import tokens
 
 
+def _implicit_close_validates(facts, rep, rule):
+    """extra data that is still pending when an entry ends implicitly (next start_*, finish(), drop) goes through end_extra_data -- the
+    only place that validates it -- whichever part (local, central-only) is pending: on every path of finish_file that found the
+    writer in extra-data mode, end_extra_data is called"""
+    from engine.paths import paths as _paths, PathExplosion
+    ff = facts.one(ZW + "finish_file$")
+    try:
+        ps = _paths(ff, max_paths=20000)
+    except PathExplosion:
+        return bool(rep.check(False, rule, "implicit-close-validates", where(ff, ff.span), "", "finish_file has too many paths to decide (fail closed)"))
+    n = bad = 0
+    for p_ in ps:
+        dec = [v_ for a_, v_ in p_["decisions"] if re.search(r"\.writing_to_extra_field$", a_)]
+        if not dec or dec[0] != 1:
+            continue
+        n += 1
+        names = [e_[1] for e_ in p_["effects"]]
+        if not any(n_.endswith("end_extra_data") for n_ in names):
+            bad += 1
+    return bool(rep.check(n >= 1 and bad == 0, rule, "implicit-close-validates", where(ff, ff.span),
+                          "finish_file: writing_to_extra_field => end_extra_data()? (local or central-only part alike)",
+                          "an entry can be closed implicitly while extra data is pending without end_extra_data being run (%d of %d such paths): the pending part is never validated" % (bad, n)))
+
+
 def valid_rules(facts, rep):
     rule = "C17-VALID"
     ok = True
@@ -31,6 +55,7 @@ def valid_rules(facts, rep):
     if good:
         dest = va[0][1]["dest"]["l"]
         good = any(callee_matches(t, r"Try::branch$") and t["args"][0]["k"] != "const" and t["args"][0]["place"]["l"] == dest for _, t in ee.calls())
+    ok &= _implicit_close_validates(facts, rep, rule)
     ok &= rep.check(good, rule, "validate-before-emit", where(ee, ee.span), "validate_extra_data(file)? dominates every write of the extra data", "extra data can reach the archive before (or without) validation")
     ff = facts.one(ZW + "finish_file$")
     e2 = calls_matching(ff, ZW + "end_extra_data$")
